@@ -1369,3 +1369,28 @@ Proof.
   - intros (p & Hp & Hx). rewrite <- HM in Hp. apply in_flat_map in Hp. destruct Hp as (g & Hg & Hp).
     exists g. split; [exact Hg|]. apply hook_graph_paths. now exists p.
 Qed.
+
+(* patterns equal by ObserverGraph.__eq__ hook the same (object, trait) pairs on every heap: removing by an equal
+   pattern addresses exactly what the registration hooked *)
+Lemma path_eqb_eq p : forall q, path_eqb p q = true -> p = q.
+Proof.
+  induction p as [|n p IH]; intros [|m q] H; try discriminate; [reflexivity|].
+  cbn in H. apply andb_prop in H. destruct H as [H1 H2]. apply node_eqb_eq in H1. subst. f_equal. now apply IH.
+Qed.
+
+Lemma equal_graph_hooks_sub h o g1 g2 x : graph_eqb g1 g2 = true -> In x (hook_graph h o g1) -> In x (hook_graph h o g2).
+Proof.
+  intros He Hx. apply hook_graph_paths in Hx. destruct Hx as (p & Hp & Hx).
+  destruct (graph_eqb_paths _ _ He _ Hp) as (q & Hq & Hpq). apply path_eqb_eq in Hpq. subst.
+  apply hook_graph_paths. now exists q.
+Qed.
+
+Lemma equal_patterns_hooks g1 : forall g2, list_eqb graph_eqb g1 g2 = true ->
+  forall h o x, In x (flat_map (hook_graph h o) g1) <-> In x (flat_map (hook_graph h o) g2).
+Proof.
+  induction g1 as [|a g1 IH]; intros [|b g2] H h o x; try discriminate; [reflexivity|].
+  cbn [list_eqb] in H. apply andb_prop in H. destruct H as [Hab H]. cbn [flat_map]. rewrite !in_app_iff.
+  rewrite (IH _ H h o x). split; (intros [Hx|Hx]; [left|now right]).
+  - now apply (equal_graph_hooks_sub h o a b).
+  - apply (equal_graph_hooks_sub h o b a); [now rewrite graph_eqb_sym|exact Hx].
+Qed.
